@@ -103,3 +103,12 @@ impl Pred {
         ensures final(self).calls@ == old(self).calls@.push((obj.id(), metrics, r))
     { unimplemented!() }
 }
+
+// num_cpus::get_physical(): some small positive number (trusted)
+pub mod num_cpus {
+    use super::*;
+    #[verifier::external_body]
+    pub fn get_physical() -> (r: usize)
+        ensures 1 <= r <= 65536
+    { unimplemented!() }
+}
